@@ -20,6 +20,9 @@ import (
 // numbers and judged offline (internal/lspc/monitor.go).
 
 func c23RepoDir() string {
+	if d := os.Getenv("VERIF_REPO"); d != "" {
+		return d
+	}
 	cmd := exec.Command("go", "list", "-m", "-f", "{{.Dir}}", "github.com/inspirer/textmapper")
 	if root := os.Getenv("VERIF_ROOT"); root != "" {
 		cmd.Dir = root
